@@ -37,7 +37,7 @@ pub fn ref_slot(key: &[u8]) -> usize {
 
 pub fn run_c09_keys(cli: &Cli) -> (Value, Vec<Violation>) {
     let alpha: &[u8] = &[b'{', b'}', b'a', b'b', 0x00, 0xFF];
-    let maxlen = if cli.thorough() { 7 } else { 6 };
+    let maxlen = [6usize, 7, 8][cli.level().min(2)];
     let mut n = 0usize;
     let mut viol = vec![];
     let mut slots_seen = std::collections::HashSet::new();
